@@ -1,0 +1,36 @@
+//go:build verif
+
+package main
+
+import (
+	"fmt"
+	"os"
+	"runtime"
+	"time"
+)
+
+var verifFitnessCalls int
+
+// Verification hook (build tag "verif" only): after every fitness evaluation the number of live
+// goroutines is appended to the file named by BM_VERIF_LOG (the workers of the evaluation have been
+// told to exit by then; they are given a moment to do so).
+func verifFitnessDone() {
+	name := os.Getenv("BM_VERIF_LOG")
+	if name == "" {
+		return
+	}
+	verifFitnessCalls++
+	n := runtime.NumGoroutine()
+	for i := 0; i < 20; i++ {
+		time.Sleep(2 * time.Millisecond)
+		m := runtime.NumGoroutine()
+		if m == n && i > 2 {
+			break
+		}
+		n = m
+	}
+	if f, err := os.OpenFile(name, os.O_APPEND|os.O_CREATE|os.O_WRONLY, 0644); err == nil {
+		fmt.Fprintf(f, "fitness %d goroutines %d\n", verifFitnessCalls, n)
+		f.Close()
+	}
+}
